@@ -4,6 +4,8 @@ at `position`, i.e. the true entry is `Good` for the file.
 -/
 import Hts.Lemmas.FaiIndex
 import Hts.Lemmas.FaiRead
+set_option linter.unusedVariables false
+set_option linter.unusedSimpArgs false
 namespace Hts.Lemmas.Fai
 open Hts.Model.Fai
 open Hts.Spec.Fasta (isGraphic isBase isDescByte isBlankByte Rec Eol Entry seqLines terminate blankLines
